@@ -14,6 +14,7 @@ TEMPLATE = {
     'dict_u': "u'{k}': u'{v}'", 'json_tight': '"{k}":"{v}"', 'xml': '<{k}>{v}</{k}>',
     'opt': '--{k} {v}', 'sp_sq': "{k} '{v}'", 'sp_dq': '{k} "{v}"',
     'argv_flag': "'--{k}', '--flag', '{v}'", 'argv_u': "'{k}', '-f', u'{v}'", 'flag': '{k} --flag {v}',
+    'argv_flag_us': "'--{k}', '--flag_name', '{v}'", 'flag_us': '{k} --new_value {v}',
 }
 SANITIZE = ['adminpass', 'admin_pass', 'password', 'admin_password', 'auth_token', 'new_pass',
             'auth_password', 'secret_uuid', 'secret', 'sys_pswd', 'token', 'configdrive',
